@@ -24,7 +24,15 @@ func concCheck(c *report.Check, prop string, kv bool) {
 	if c.Thorough() {
 		ns = 48
 	}
-	sum := e2.Drive(c, []e2.Plan{{Scns: scns, Bound: bound, NShards: ns}}, 0)
+	ms := concMaintScenarios()
+	mb := 1
+	if c.Thorough() {
+		mb = 2
+	}
+	sum := e2.Drive(c, []e2.Plan{{Scns: scns, Bound: bound, NShards: ns}, {Scns: ms, Bound: mb, NShards: ns}}, 0)
+	c.Set("conc_scenarios_with_maintenance_thread", len(ms))
+	c.Set("conc_preemption_bound_with_maintenance_thread", mb)
+	scns = append(append([]string{}, scns...), ms...)
 	for _, v := range sum.Violations {
 		cls := v.Violation
 		if i := strings.Index(cls, " ("); i > 0 {
@@ -42,7 +50,7 @@ func concCheck(c *report.Check, prop string, kv bool) {
 		c.Set("traces_validated_against_impl", sum.Executions)
 		c.Set("evaluations", sum.Executions)
 		c.Set("distinct_nontrivial", len(sum.Outcomes))
-		c.Set("rule", fmt.Sprintf("every schedule within preemption bound %d of %d membership-race scenarios (two joiners to one successor, joiners to different successors, leave racing a join at the leaver and at its neighbour, adjacent leaves, direct concurrent RequestToJoin/RequestToLeave) on real nodes behind the RPC view model with statement-level scheduling points in the chord membership, lookup and stabilize code; an RPC-level observer tracks which request holds which node; 'states' = distinct (per-operation results, final ring) outcomes", bound, len(scns)))
+		c.Set("rule", fmt.Sprintf("every schedule within preemption bound %d of %d membership-race scenarios (two joiners to one successor, joiners to different successors, leave racing a join at the leaver and at its neighbour, adjacent leaves, direct concurrent RequestToJoin/RequestToLeave; plus 3 of them with the periodic maintenance of every node as a third thread, at the lower bound stated) on real nodes behind the RPC view model with statement-level scheduling points in the chord membership, lookup and stabilize code; an RPC-level observer tracks which request holds which node; 'states' = distinct (per-operation results, final ring) outcomes", bound, len(scns)))
 		var samples []any
 		for _, s := range scns[:3] {
 			if st := sum.PerScn[s]; st != nil {
